@@ -17,20 +17,26 @@ C03 — samplers draw from the distribution they describe, in every parameter re
 What is proved here, about the model `Compute/Model/Samplers.lean` (the same definitions the compiled driver runs at
 `Float`, tied bit for bit to the Rust samplers on every check) instantiated at `ℝ`:
 
-* the generated tables are the doubles of the source (`lits_valid`);
-* inverse-CDF laws in exact arithmetic for every parameter and every uniform draw `u ∈ (0,1)`:
-  Exponential, Pareto, Gumbel, Uniform (`CDF (sample u) = u` or `1 - u`), Bernoulli (`sample = 1 ↔ u < p`);
-  since `u ↦ 1 - u` preserves the uniform law these are the distributional statements;
-* the Poisson multiplication method returns `k` iff `∏_{i≤k} u_i > e^{-λ} ≥ ∏_{i≤k+1} u_i`; binomial inversion walks the
-  exact binomial mass function and returns the generalised inverse of its CDF at `u`;
-* compositions are the textbook ones (chi-squared, beta, t, MVN `μ + L z`, binomial flip, Poisson / binomial regime
-  routing, the gamma boost `Gamma(α) = U^{1/α} · Gamma(α+1)` below shape 1);
-* support and shape (Pareto `≥ x_m`, Exponential `≥ 0`, Uniform in `[a,b]`, Bernoulli in `{0,1}`, Gamma `≥ 0` / `> 0`,
-  `sample_n` returns exactly `n` consecutive draws of the stream, `sample_matrix` and MVN `sample_n` shapes);
-* the domain witness of the legacy gamma sampler (F20) and its absence after the repair.
+* the generated tables are the doubles of the source (`lits_valid`) and are internally consistent (`zig_*`: the `K`/`W`
+  floor relation exactly, equal layer areas to a relative `10⁻⁹`, `2²⁴·W[126] = R` to `10⁻⁹`) — NOT that `Y[i] = exp(−x²/2)`;
+* inverse-CDF laws in exact arithmetic, for every parameter and EVERY generator state for which the call returns (the redraw
+  loop of repair F53 hands the formula the first non-zero uniform `u ∈ (0,1)` of the stream): Exponential, Pareto, Gumbel
+  (`CDF (sample) = u` or `1 − u`, support), with termination at the first non-zero uniform; Uniform; Bernoulli
+  (`sample = 1 ↔ u < p`); since `u ↦ 1 − u` preserves the uniform law these are the distributional statements;
+* the Poisson multiplication method returns `k` iff `∏_{i≤k} u_i > e^{−λ} ≥ ∏_{i≤k+1} u_i`, and terminates for every state;
+  binomial inversion walks the exact binomial mass function, returns the generalised inverse of its CDF at `u`, is `≤ n`, and
+  terminates within `n + 1` iterations for every state;
+* support: DiscreteUniform in `[lower, upper]`, Uniform in `[a,b]`, Bernoulli in `{0,1}`; PARTIAL correctness (`_partial`: every
+  returning call, termination of the rejection loop not proved) for Gamma `> 0` (all shapes, after repair F54), χ² `> 0`,
+  Beta in `[0,1]`; the gamma boost `Gamma(α) = U^{1/α}·Gamma(α+1)` with `U` the first non-zero uniform;
+* MVN: a returned draw is `μ + L z` (`mvn_sample_spec`; `Props/C03Mvn.lean` derives the hypotheses and `L Lᵀ = Σ` from `MVN.new`);
+* `sample_n` returns exactly `n` consecutive draws of the stream, `sample_matrix` / MVN `sample_n` shapes;
+* unfolding-level facts that only pin the model's compositions (χ² = Gamma(k/2, ½), Beta ratio, t formula, routing, flip,
+  `mvn_sample_eq`): `rfl` / `simp [def]`, not results; `legacy_gamma_sqrt_domain` is about the code deleted by repair F20.
 
-NOT proved (see `NOT_PROVED` in tools/cv/c03.py): the laws of the rejection samplers (Ziggurat, Marsaglia–Tsang, PTRS,
-BTPE), termination of their loops, uniformity of wyrand.  They are covered by the bit-exact tie + the DKW search.
+Non-vacuity of every "the call returns" hypothesis: `Props/C03Witness.lean` (concrete generator states, evaluated in the kernel).
+NOT proved (see `NOT_PROVED` in tools/cv/c03.py): the laws of the rejection samplers (Ziggurat, Marsaglia–Tsang, PTRS, BTPE),
+termination of their loops, uniformity of wyrand.  They are covered by the bit-exact tie + the DKW search.
 -/
 set_option linter.unusedSectionVars false
 set_option linter.unusedSimpArgs false
@@ -306,6 +312,25 @@ theorem uniform_support (a b : ℝ) (hab : a ≤ b) (g : Rng) :
 theorem uniform_degenerate (a : ℝ) (g : Rng) : (UniformF.sample a a g).1 = a := by
   simp [uniformF_real, Uniform.sample]
 
+/-- **DiscreteUniform support** (every returning call): the draw is an integer `i` with `lower ≤ i ≤ upper`, cast to the
+scalar type (uses the range theorem of Lemire's bounded draw, `Lemmas/C19Rng.lean`); equal bounds return the bound without
+touching the generator. -/
+theorem discrete_uniform_support (fuel : Nat) (lo hi : Int) (g g' : Rng) (x : ℝ)
+    (h : DiscreteUniform.sample (α := ℝ) fuel lo hi g = some (x, g')) :
+    ∃ i : Int, x = (i : ℝ) ∧ lo ≤ i ∧ i ≤ hi ∧ DiscreteUniform.sampleInt fuel lo hi g = some (i, g') := by
+  unfold DiscreteUniform.sample at h
+  cases hs : DiscreteUniform.sampleInt fuel lo hi g with
+  | none => simp [hs] at h
+  | some r =>
+    obtain ⟨i, g1⟩ := r
+    simp [hs] at h
+    obtain ⟨hlo, hhi⟩ := DiscreteUniform.sampleInt_range hs
+    exact ⟨i, h.1.symm, hlo, hhi, by rw [h.2]⟩
+
+theorem discrete_uniform_degenerate (fuel : Nat) (lo : Int) (g : Rng) :
+    DiscreteUniform.sample (α := ℝ) fuel lo lo g = some ((lo : ℝ), g) := by
+  simp [DiscreteUniform.sample, DiscreteUniform.sampleInt_eq]
+
 /-- Bernoulli draws are `0` or `1`, for every `p` and every state. -/
 theorem bernoulli_support (p : ℝ) (g : Rng) : (Bernoulli.sample p g).1 = 0 ∨ (Bernoulli.sample p g).1 = 1 := by
   simp only [Bernoulli.sample]
@@ -432,19 +457,19 @@ theorem gamma_no_boost (fuel : Nat) (a b : ℝ) (ha : 1 ≤ a) (g : Rng) :
 /-! ### 4b. Support of the gamma family -/
 
 /-- Every value returned by the Marsaglia–Tsang loop is positive when `boost, d, rate > 0` (the loop only accepts `v > 0`). -/
-theorem gamma_loop_pos (zf : Nat) (boost d beta : ℝ) (hb : 0 < boost) (hd : 0 < d) (hbeta : 0 < beta)
+theorem gamma_loop_pos_partial (zf : Nat) (boost d beta : ℝ) (hb : 0 < boost) (hd : 0 < d) (hbeta : 0 < beta)
     (fuel : Nat) (g g' : Rng) (x : ℝ) (h : Gamma.loop zf boost d beta fuel g = some (x, g')) : 0 < x :=
   gamma_loop_pos' zf boost d beta hb hd hbeta fuel g g' x h
 
 /-- **Gamma support.** For shape `≥ 1` every returned draw is `> 0`. -/
-theorem gamma_support_ge_one (fuel : Nat) (a b : ℝ) (ha : 1 ≤ a) (hb : 0 < b) (g g' : Rng) (x : ℝ)
+theorem gamma_support_ge_one_partial (fuel : Nat) (a b : ℝ) (ha : 1 ≤ a) (hb : 0 < b) (g g' : Rng) (x : ℝ)
     (h : Gamma.sample fuel a b g = some (x, g')) : 0 < x := by
   rw [gamma_no_boost fuel a b ha] at h
-  exact gamma_loop_pos fuel 1 _ b one_pos (by linarith) hb fuel g g' x h
+  exact gamma_loop_pos_partial fuel 1 _ b one_pos (by linarith) hb fuel g g' x h
 
 /-- **Gamma support below shape 1** (after F54): every returned draw is `> 0` — the boosting uniform is the first non-zero
 one, hence in `(0, 1)`. -/
-theorem gamma_support_lt_one (fuel : Nat) (a b : ℝ) (ha0 : 0 < a) (ha : a < 1) (hb : 0 < b) (g g' : Rng) (x : ℝ)
+theorem gamma_support_lt_one_partial (fuel : Nat) (a b : ℝ) (ha0 : 0 < a) (ha : a < 1) (hb : 0 < b) (g g' : Rng) (x : ℝ)
     (h : Gamma.sample fuel a b g = some (x, g')) : 0 < x := by
   rw [gamma_boost fuel a b ha0.le ha] at h
   cases hr : redrawNonzero (UniformF.sample (0 : ℝ) 1) fuel g with
@@ -459,29 +484,29 @@ theorem gamma_support_lt_one (fuel : Nat) (a b : ℝ) (ha0 : 0 < a) (ha : a < 1)
     | some y =>
       obtain ⟨y, g2⟩ := y
       simp [hs] at h
-      have hy : 0 < y := gamma_support_ge_one fuel (a + 1) b (by linarith) hb _ g2 y hs
+      have hy : 0 < y := gamma_support_ge_one_partial fuel (a + 1) b (by linarith) hb _ g2 y hs
       rw [← h.1]
       exact mul_pos (Real.rpow_pos_of_pos hupos _) hy
 
 /-- **Gamma support**, every valid shape and rate: returned draws are `> 0`. -/
-theorem gamma_support_pos (fuel : Nat) (a b : ℝ) (ha : 0 < a) (hb : 0 < b) (g g' : Rng) (x : ℝ)
+theorem gamma_support_pos_partial (fuel : Nat) (a b : ℝ) (ha : 0 < a) (hb : 0 < b) (g g' : Rng) (x : ℝ)
     (h : Gamma.sample fuel a b g = some (x, g')) : 0 < x := by
   by_cases h1 : a < 1
-  · exact gamma_support_lt_one fuel a b ha h1 hb g g' x h
-  · exact gamma_support_ge_one fuel a b (not_lt.mp h1) hb g g' x h
+  · exact gamma_support_lt_one_partial fuel a b ha h1 hb g g' x h
+  · exact gamma_support_ge_one_partial fuel a b (not_lt.mp h1) hb g g' x h
 
-theorem gamma_support_nonneg (fuel : Nat) (a b : ℝ) (ha : 0 < a) (hb : 0 < b) (g g' : Rng) (x : ℝ)
-    (h : Gamma.sample fuel a b g = some (x, g')) : 0 ≤ x := (gamma_support_pos fuel a b ha hb g g' x h).le
+theorem gamma_support_nonneg_partial (fuel : Nat) (a b : ℝ) (ha : 0 < a) (hb : 0 < b) (g g' : Rng) (x : ℝ)
+    (h : Gamma.sample fuel a b g = some (x, g')) : 0 ≤ x := (gamma_support_pos_partial fuel a b ha hb g g' x h).le
 
 /-- Chi-squared draws are `> 0` (every `dof ≥ 1`, every returning call; after F54 also at the zero-uniform states). -/
-theorem chi_squared_support (fuel k : Nat) (hk : 0 < k) (g g' : Rng) (x : ℝ)
+theorem chi_squared_support_partial (fuel k : Nat) (hk : 0 < k) (g g' : Rng) (x : ℝ)
     (h : ChiSquared.sample (α := ℝ) fuel k g = some (x, g')) : 0 < x := by
   rw [chi_squared_is_gamma] at h
   have hk' : (0 : ℝ) < (k : ℝ) / 2 := by positivity
-  exact gamma_support_pos fuel _ _ hk' (by norm_num) g g' x h
+  exact gamma_support_pos_partial fuel _ _ hk' (by norm_num) g g' x h
 
 /-- **Beta support**: every returned draw lies in `[0, 1]` (valid shapes). -/
-theorem beta_sample_support (fuel : Nat) (a b : ℝ) (ha : 0 < a) (hb : 0 < b) (g g' : Rng) (v : ℝ)
+theorem beta_sample_support_partial (fuel : Nat) (a b : ℝ) (ha : 0 < a) (hb : 0 < b) (g g' : Rng) (v : ℝ)
     (h : Beta.sample fuel a b g = some (v, g')) : 0 ≤ v ∧ v ≤ 1 := by
   unfold Beta.sample at h
   cases hx : Gamma.sample fuel a 1 g with
@@ -492,8 +517,8 @@ theorem beta_sample_support (fuel : Nat) (a b : ℝ) (ha : 0 < a) (hb : 0 < b) (
     | none => simp [hx, hy] at h
     | some r2 =>
       obtain ⟨y, g2⟩ := r2
-      have hx0 : 0 ≤ x := gamma_support_nonneg fuel a 1 ha one_pos g g1 x hx
-      have hy0 : 0 ≤ y := gamma_support_nonneg fuel b 1 hb one_pos g1 g2 y hy
+      have hx0 : 0 ≤ x := gamma_support_nonneg_partial fuel a 1 ha one_pos g g1 x hx
+      have hy0 : 0 ≤ y := gamma_support_nonneg_partial fuel b 1 hb one_pos g1 g2 y hy
       simp only [hx, hy] at h
       split_ifs at h with h0 h1
       · simp at h; rw [← h.1]; norm_num
